@@ -108,6 +108,8 @@ type Event struct {
 	Op      *Op    `json:"op,omitempty"`
 	Res     *Res   `json:"res,omitempty"`
 	Msg     string `json:"msg,omitempty"`
+	What    string `json:"what,omitempty"` // Maint: flush | compact
+	Seq0    int64  `json:"seq0,omitempty"` // Maint: sequence number taken before the maintenance call
 	W       int    `json:"w"`
 	Epoch   int    `json:"epoch"`
 	Clients int    `json:"clients,omitempty"`
@@ -592,7 +594,15 @@ func main() {
 	compact := flag.Bool("compact", true, "let the maintenance goroutine call CompactIndex")
 	minOps := flag.Int("minops", 40, "min ops per window")
 	maxOps := flag.Int("maxops", 60, "max ops per window")
+	repro := flag.String("repro", "", "run a minimal reproduction instead (compaction | refget)")
 	flag.Parse()
+	if *repro != "" {
+		if *dir == "" {
+			vh.Fatalf("need -dir")
+		}
+		runRepro(*repro, *dir)
+		return
+	}
 	if *out == "" || *dir == "" {
 		vh.Fatalf("need -out and -dir")
 	}
@@ -619,8 +629,8 @@ func main() {
 			NodeSize:   []int{1024, 2048, 4096}[rng.Intn(3)],
 			FlushThld:  []int{3, 10, 100000}[rng.Intn(3)],
 			RenewMs:    []int{0, 1, 1000}[rng.Intn(3)],
-			Maint:      *maint,
-			Compact:    *compact,
+			Maint:      *maint && epoch%5 != 4,
+			Compact:    *compact && epoch%2 == 0,
 			CompactDly: []int{0, 1, 10}[rng.Intn(3)],
 			BulkSize:   1,
 		}
@@ -634,6 +644,7 @@ func main() {
 }
 
 func runEpoch(res *vh.Result, emit func(Event), seed int64, epoch, win0, nw, ncl int, cfg epochCfg, dir string, minOps, maxOps int) {
+	os.RemoveAll(dir)
 	vh.Must(os.MkdirAll(dir, 0o755), "mkdir")
 	so := store.DefaultOptions().WithSynced(cfg.Synced).WithSyncFrequency(time.Millisecond).WithMaxConcurrency(32).WithMaxKeyLen(96).WithMaxValueLen(256).
 		WithLogger(logger.NewMemoryLoggerWithLevel(logger.LogError))
@@ -641,8 +652,13 @@ func runEpoch(res *vh.Result, emit func(Event), seed int64, epoch, win0, nw, ncl
 		WithRenewSnapRootAfter(time.Duration(cfg.RenewMs) * time.Millisecond).WithDelayDuringCompaction(time.Duration(cfg.CompactDly) * time.Millisecond).
 		WithCacheSize(1 << 20).WithFlushBufferSize(1 << 14).WithMaxBulkSize(cfg.BulkSize))
 	opts := database.DefaultOptions().WithDBRootPath(dir).WithStoreOptions(so)
+	tOpen := time.Now()
 	db, err := database.NewDB("db", nil, opts, logger.NewMemoryLoggerWithLevel(logger.LogError))
 	vh.Must(err, "NewDB")
+	dbg := os.Getenv("C06_DEBUG") != ""
+	if dbg {
+		fmt.Fprintf(os.Stderr, "epoch %d: NewDB %v (%s)\n", epoch, time.Since(tOpen), cfg)
+	}
 	emit(Event{Ev: "Reset", Epoch: epoch, W: win0, Clients: ncl, Cfg: cfg.String()})
 
 	var seq int64
@@ -654,6 +670,17 @@ func runEpoch(res *vh.Result, emit func(Event), seed int64, epoch, win0, nw, ncl
 	// maintenance runs freely across windows
 	stop := make(chan struct{})
 	var mwg sync.WaitGroup
+	var mmu sync.Mutex
+	var mevs []Event
+	mlog := func(what string, s0 int64, err error) {
+		e := Event{Ev: "Maint", What: what, Seq0: s0, Seq: atomic.AddInt64(&seq, 1)}
+		if err != nil {
+			e.Msg = err.Error()
+		}
+		mmu.Lock()
+		mevs = append(mevs, e)
+		mmu.Unlock()
+	}
 	if cfg.Maint {
 		mwg.Add(1)
 		go func() {
@@ -667,14 +694,18 @@ func runEpoch(res *vh.Result, emit func(Event), seed int64, epoch, win0, nw, ncl
 				}
 				switch r := mr.Intn(10); {
 				case r < 6 || !cfg.Compact:
+					s0 := atomic.AddInt64(&seq, 1)
 					err := db.FlushIndex(&schema.FlushIndexRequest{CleanupPercentage: []float32{0, 10, 100}[mr.Intn(3)], Synced: mr.Intn(2) == 0})
+					mlog("flush", s0, err)
 					if err != nil {
 						res.Count("maint:flush-err", 1)
 					} else {
 						res.Count("maint:flush", 1)
 					}
 				default:
+					s0 := atomic.AddInt64(&seq, 1)
 					err := db.CompactIndex()
+					mlog("compact", s0, err)
 					switch {
 					case err == nil:
 						res.Count("maint:compact", 1)
@@ -702,6 +733,7 @@ func runEpoch(res *vh.Result, emit func(Event), seed int64, epoch, win0, nw, ncl
 		}
 		var wg sync.WaitGroup
 		done := make(chan struct{})
+		tWin := time.Now()
 		for ci, c := range clients {
 			c.evs = c.evs[:0]
 			wg.Add(1)
@@ -732,11 +764,19 @@ func runEpoch(res *vh.Result, emit func(Event), seed int64, epoch, win0, nw, ncl
 		case <-time.After(180 * time.Second):
 			vh.Fatalf("window %d of epoch %d did not finish within 180s (clients blocked in the database)", win0+wi, epoch)
 		}
+		if dbg {
+			fmt.Fprintf(os.Stderr, "  window %d: %d ops in %v\n", win0+wi, budget, time.Since(tWin))
+		}
 		// quiescent point: all clients idle; merge by global sequence
 		var all []Event
 		for _, c := range clients {
 			all = append(all, c.evs...)
 		}
+		nops := len(all) / 2
+		mmu.Lock()
+		all = append(all, mevs...)
+		mevs = mevs[:0]
+		mmu.Unlock()
 		sort.Slice(all, func(i, j int) bool { return all[i].Seq < all[j].Seq })
 		for _, e := range all {
 			e.W = win0 + wi
@@ -744,7 +784,7 @@ func runEpoch(res *vh.Result, emit func(Event), seed int64, epoch, win0, nw, ncl
 			emit(e)
 		}
 		emit(Event{Ev: "Cut", W: win0 + wi, Epoch: epoch})
-		res.Evaluations += len(all) / 2
+		res.Evaluations += nops
 	}
 	close(stop)
 	mwg.Wait()
